@@ -1035,6 +1035,22 @@ class Emit:
         return None
     def _mcall(self, e):
         recv, m, args = e[1], e[2], e[3]
+        if m == "find" and len(args) == 1 and args[0][0] == "closure" and len(args[0][1]) == 1 and args[0][1][0][0] == "bind" and self.effects:
+            body = args[0][2]
+            if body[0] == "block" and not body[1] and body[2] is not None: body = body[2]
+            if not self.pure_expr(body):
+                # `iter.find(|x| <predicate that performs operations>)`: the first element for which the predicate holds, the predicate
+                # evaluated element by element in order and not at all after the first hit (what `Iterator::find` does)
+                self.qn += 1; v = f"__find{self.qn}"; x = lname(args[0][1][0][1])
+                self.pre.append(f"let mut {v} := none")
+                self.pre.append(f"for {x} in {self.ex(self.strip_adapt(recv))} do")
+                self.pre.append(f"  if {v}.isNone then")
+                saved = self.pre; self.pre = []
+                c = self.ex(body)
+                inner = self.pre; self.pre = saved
+                for ln_ in inner: self.pre.append("    " + ln_)
+                self.pre.append(f"    if {c} then {v} := some {x}")
+                return (v, False, False)
         if (m in ERASED_METHODS and not args) or m in ("map_err", "with_context", "context"): return (self.ex(recv), False, False)
         if self.recv_name(recv) is not None and f"{self.recv_name(recv)}.{m}" in self.unit.get("recv_fx_methods", {}):
             # an operation of the world behind a guard variable (`map.get(&k)` under the mutex): effectful, the guard is dropped
